@@ -242,7 +242,11 @@ class _HamiltonianSystem(_DynamicalSystem):
             Compiled function implementing Hamilton's equations.
         """
 
-        jac_H, clmo_H, n_dof = self.jac_H, self.clmo_H, self.n_dof
+        # Numba cannot freeze typed lists captured by a closure; immutable tuples
+        # of arrays carry the same data and can be lowered as constants.
+        jac_H = tuple(tuple(coeffs for coeffs in var_derivs) for var_derivs in self.jac_H)
+        clmo_H = tuple(clmo for clmo in self.clmo_H)
+        n_dof = self.n_dof
 
         def _rhs_impl(t: float, state: np.ndarray) -> np.ndarray:
             # Autonomous: t is unused; required for interface consistency
